@@ -417,7 +417,7 @@ struct Evidence {
     std::map<std::string, uint64_t> hist;
     std::vector<std::string> samples;
     std::map<std::string, std::string> extra;   // raw JSON values
-    std::string rule;
+    std::string rule, level_hint;
     bool exhaustive = false;
     size_t max_samples = 4;
     void count(const std::string &k, uint64_t n = 1) { hist[k] += n; }
